@@ -102,6 +102,16 @@ fn gen_request(r: &mut Rng, budget: usize, seq_no: usize) -> HostileReq {
     if r.chance(1, 10) {
         spec.extra.push((6, vec![]));
     }
+    // options a handler may know about and take apart (Request-Tag, Echo, OSCORE, Hop-Limit, Q-Block ...),
+    // with lengths inside and outside what their RFCs allow
+    if r.chance(1, 5) {
+        let number = *r.pick(&[292u16, 292, 252, 9, 16, 19, 31, 258, 21, 17]);
+        let len = *r.pick(&[0usize, 1, 8, 9, 16, 40, 255, 300]);
+        spec.extra.push((number, r.bytes(len)));
+        if r.bool() {
+            spec.extra.push((number, r.bytes(len / 2)));
+        }
+    }
     spec.extra.sort_by_key(|o| o.0);
     let plen = match r.below(6) {
         0 => 0,
